@@ -83,6 +83,107 @@ def k7_part(ctx: vlib.Ctx):
             ctx.not_shown("translation validation K7", str([flagsets[i] for i in bad[:5]]))
 
 
+def k43_part(ctx: vlib.Ctx):
+    """kernel K43 (emission of unpack_named_tuple): theorems + validation of the translation against the code the real
+    generator produces for random NamedTuple classes in both forms (helper text captured at its exec, direct call read from
+    the decoder's source)"""
+    import builtins
+    import re
+    import mashumaro.core.meta.code.builder as _builder
+    import mashumaro.core.meta.types.unpack as _unpack
+    from mashumaro.codecs.basic import BasicDecoder
+    from mashumaro.dialect import Dialect
+    ctx.theorems("props/C03_ntdict_kernel.vo", ["C03_named_code_is_model", "C03_ntdict_code_is_model"], kernels=["K43"])
+    ctx.trusted += ["tools/kernels/k43_namedtuple_emit.py (translator of the emission part of unpack_named_tuple: statement texts compared exactly, branch structure read "
+                    "from the AST; validated each run against the code generated for random NamedTuple classes); NtEmit.v run_code = semantics of the emitted statements"]
+    if not ctx.kernel_report.get("K43", {}).get("ok"):
+        return
+    rng = ctx.rng
+    cases, info = [], []
+    for i in range(ctx.budget(40, 300)):
+        n = rng.randrange(1, 6)
+        ndef = rng.choice([0, 0, 1, 2, n])
+        names = [f"f{j}" for j in range(n)]
+        ndef = min(ndef, n)
+        defaulted = names[n - ndef:]
+        src = "from typing import NamedTuple\nclass N(NamedTuple):\n" + "".join(
+            f"    {nm}: int" + (" = 0" if nm in defaulted else "") + "\n" for nm in names)
+        ns = gen.build_module(src)
+        as_dict = rng.random() < 0.5
+        dia = type("D", (Dialect,), {"namedtuple_as_dict": as_dict})
+        got = {"helper": None, "main": None}
+
+        def rec(code, g=None, l=None):
+            if isinstance(code, str):
+                if "def __unpack_named_tuple_" in code:
+                    got["helper"] = code
+                else:
+                    got["main"] = code
+            return builtins.exec(code, g, l)
+        olds = (_unpack.__dict__.get("exec"), _builder.__dict__.get("exec"))
+        _unpack.exec = _builder.exec = rec
+        try:
+            BasicDecoder(ns["N"], default_dialect=dia)
+        except Exception as e:
+            ctx.not_shown("kernel K43 validation", f"{src}: {type(e).__name__}: {e}"[:300])
+            continue
+        finally:
+            for m_, o_ in ((_unpack, olds[0]), (_builder, olds[1])):
+                if o_ is None:
+                    del m_.exec
+                else:
+                    m_.exec = o_
+        text = (got["helper"] or "") + "\n" + (got["main"] or "")
+        # subscripts of the item unpackers, in order of appearance
+        subs = re.findall(r"value\[('(?:f\d+)'|\d+)\]", got["helper"] or got["main"] or "")
+        idx = "[" + "; ".join(f"IName {vlib.coq_str(x[1:-1])}" if x.startswith("'") else f"IPos {int(x)}" for x in subs) + "]"
+        if got["helper"]:
+            lines = [x.strip() for x in got["helper"].splitlines()]
+            body = []
+            pend = None
+            for ln in lines:
+                m1 = re.match(r"if '(f\d+)' in value:$", ln)
+                m2 = re.match(r"fields\['(f\d+)'\] = ", ln)
+                if m1:
+                    pend = m1.group(1)
+                elif m2:
+                    body.append(f"NLSetIf {vlib.coq_str(m2.group(1))}" if pend == m2.group(1) else f"NLSet {vlib.coq_str(m2.group(1))}")
+                    pend = None
+                elif ln.startswith("fields.append("):
+                    body.append("NLAppend")
+            if "fields = {}" in lines and any(x.startswith("return") and "(**fields)" in x for x in lines):
+                code = "NCKw [" + "; ".join(body) + "]"
+            elif ("fields = []" in lines and "try:" in lines and "except IndexError:" in lines and "if len(fields) < len(value):" in lines
+                  and "raise" in lines and any(x.startswith("return") and "(*fields)" in x for x in lines)):
+                code = "NCTry [" + "; ".join(body) + "]"
+            else:
+                code = "NCKw []"        # unrecognised: will not match
+        else:
+            code = "NCCall"
+        nm = "[" + "; ".join(vlib.coq_str(x) for x in names) + "]"
+        df = "[" + "; ".join(vlib.coq_str(x) for x in defaulted) + "]"
+        cases.append(f"((({'true' if as_dict else 'false'}, {nm}), {df}), ({idx}, {code}))")
+        info.append((as_dict, names, defaulted, idx, code))
+        ctx.count(("k43", as_dict, n, ndef))
+        gen.dispose_module(ns) if hasattr(gen, "dispose_module") else None
+    defs = ("Definition idx_eqb (a b: nt_idx) : bool := match a, b with IName x, IName y => String.eqb x y | IPos x, IPos y => Nat.eqb x y | _, _ => false end.\n"
+            "Definition line_eqb (a b: nt_line) : bool := match a, b with NLSet x, NLSet y | NLSetIf x, NLSetIf y => String.eqb x y | NLAppend, NLAppend => true | _, _ => false end.\n"
+            "Fixpoint leqb {A} (e: A -> A -> bool) (a b: list A) : bool := match a, b with [], [] => true | x :: r, y :: s => e x y && leqb e r s | _, _ => false end.\n"
+            "Definition code_eqb (a b: nt_code) : bool := match a, b with NCCall, NCCall => true | NCKw x, NCKw y | NCTry x, NCTry y => leqb line_eqb x y | _, _ => false end.\n")
+    okf = ("fun c => match c with (((ad, names), dfl), (ix, code)) => "
+           "leqb idx_eqb (k43_indices ad names) ix && "
+           "code_eqb (k43_code ad (match dfl with [] => true | _ => false end) (fun n => str_mem n dfl) names) code end")
+    bad, log = vlib.coq_bad_idx("c03_k43", "Core TyModel NtEmit", "From VerifGen Require Import K43.", defs, cases, okf,
+                                "((bool * list string) * list string) * (list nt_idx * nt_code)", shard=400, needs=["gen/K43.vo", "theories/NtEmit.vo"])
+    if bad is None:
+        ctx.correspondence("K43-translation-vs-generated-source", len(cases), -1, log)
+        ctx.not_shown("translation validation K43", log)
+    else:
+        ctx.correspondence("K43-translation-vs-generated-source", len(cases), len(bad), str([info[i] for i in bad[:4]])[:600])
+        if bad:
+            ctx.not_shown("translation validation K43", str([info[i] for i in bad[:4]])[:600])
+
+
 def probe(ctx, t, fam, ns, dec, d, nontrivial, entry="codec_decode"):
     ctx.count((t.key(), repr(d)), nontrivial=nontrivial)
     d0 = copy.deepcopy(d)
@@ -235,12 +336,19 @@ def run(ctx: vlib.Ctx):
                         "inputs with one nested sequence cut short and every prefix of an unpacked-tuple input); constant positions are recursive (fixed tuples of constants, "
                         "default-less NamedTuples of constants); nested Unpack / TypeVarTuple segments are oracle only; sequence-like "
                         "inputs of a NamedTuple/fixed tuple other than list/tuple/str (bytes, dicts with integer keys, NamedTuple instances) are not modelled; "
-                        "namedtuple_as_dict (dialect option; reference = lookup by field name, defaults for missing keys of defaulted fields) and generic NamedTuples/TypedDicts are oracle only"]
+                        "the as_dict form of a NamedTuple class at the top of a codec (class-specific serialization strategy; option namedtuple_as_dict when the items reach no other NamedTuple) is modelled "
+                        "in TyNtDict.v: lookup by field name on every input kind, 'in' tests of defaulted fields, constant positions (C03_ntdict_unpack_ref on every input, C03_ntdict_well_typed, correspondence "
+                        "incl. every key removed / surplus key / non-dict inputs); as_dict NamedTuples at nested positions / in holder dataclasses under the global option (reference by field name in ref.py) "
+                        "and generic NamedTuples/TypedDicts are oracle only"]
 
+    ctx.theorems("props/C03_ntdict.vo", ["C03_ntdict_unpack_ref", "C03_ntdict_strict_or_same", "C03_ntdict_unpack_ref_partial", "C03_ntdict_well_typed", "C03_ntdict_missing_key"])
     k7_part(ctx)
-    ctx.coqchk(["VerifProps.C03_unpack", "VerifProps.C03_tuple_kernel"])
+    k43_part(ctx)
+    ctx.coqchk(["VerifProps.C03_unpack", "VerifProps.C03_tuple_kernel", "VerifProps.C03_ntdict", "VerifProps.C03_ntdict_kernel"])
     cases, bad, log = tycorr.run(ctx, "c03_ty", ctx.budget(60, 400), 2, depth=3, foreign=4)
     hits = tyoracle.report_corr(ctx, "TyModel.uk/ref_dec vs BasicDecoder.decode", cases, bad, log, want="dec")
+    ncases, nbad, nlog = tycorr.run_nd(ctx, "c03_nd", ctx.budget(20, 150), foreign=3)
+    hits += tyoracle.report_corr(ctx, "TyNtDict.uk_nd/ref_dec_nd vs BasicDecoder.decode under an as_dict dialect", ncases, nbad, nlog, want="dec")
 
     n = ctx.budget(800, 5000) if not hits else ctx.budget(2500, 10000)
     for fam, ns, t, ty, sg in tyoracle.schema_stream(ctx.rng, n, literals=True):
